@@ -119,6 +119,37 @@ class C06(StrCheck):
     def models(self, tier):
         return [("MC_Compare", "MC_Compare" if tier == "quick" else "MC_Compare_full")]
 
+    # comparisons must see values, never leftovers of an object's history: the buffer-pool histories (moved-from,
+    # reassigned, cleared objects of all four element types) contain "observe" steps (==, !=, compare() between two
+    # live objects, against a fresh empty buffer and a fresh copy), decided by TraceBuffer.tla
+    def jobs(self, tier, seed):
+        import p_buffer
+        J = StrCheck.jobs(self, tier, seed)
+        bc = p_buffer.BufferCheck()
+        e = vlib.build("exec_buffer")
+        sched = bc.schedule("quick", faults=False)         # the 2-slot graph has every (state, observe) edge
+        n = 4 if tier == "quick" else 8
+        J += [vlib.Job("c06-bufsched-%d" % i, e, ["--schedule", sched, "--shard", "%d/%d" % (i, n)], "TraceBuffer") for i in range(n)]
+        J += [vlib.Job("c06-bufrand-%d" % i, e, ["--random", "300" if tier == "quick" else "3000", "--seed", str(seed * 100 + 60 + i)], "TraceBuffer")
+              for i in range(2 if tier == "quick" else 8)]
+        return J
+
+    def replay_jobs(self, rej):
+        if rej.get("spec") == "TraceBuffer":
+            import p_buffer
+            return p_buffer.BufferCheck().replay_jobs(rej)
+        return StrCheck.replay_jobs(self, rej)
+
+    def describe(self, rej):
+        if rej.get("spec") == "TraceBuffer":
+            import p_buffer
+            try:
+                d = json.loads(rej["event"])
+                return "observe a=%s b=%s type=%s -> %s; %s" % (d.get("a"), d.get("b"), d.get("t"), d.get("obs"), p_buffer.BufferCheck().describe(rej))
+            except Exception:
+                pass
+        return StrCheck.describe(self, rej)
+
 
 class C07(StrCheck):
     pid = "C07"
@@ -172,4 +203,26 @@ class C09(StrCheck):
         return [("MC_StringOps", "MC_StringOps" if tier == "quick" else "MC_StringOps_full")]
 
 
+class X01(StrCheck):
+    """Growth beyond the listed properties (not in MANIFEST.json): element access (at / [] / front / back), forward and
+    reverse iteration of ST::string and all four buffer types, fill, to_bool / from_bool.  bin/check X01 reports
+    rejections as property X01; no evidence file is written for it."""
+    pid = "X01"
+    gen, rand_gen, rand_alpha = "x01", "x01", "0"
+    args_quick = ["--alpha", "97,0,255", "--maxlen", "3", "--count", "500"]
+    args_thorough = ["--alpha", "97,98,0,128,255", "--maxlen", "4", "--count", "20000"]
+    shards_quick, shards_thorough = 4, 16
+    level_text = "extra coverage: element access, iteration, fill and boolean text against StringOps-style reference definitions"
+    rule = "all strings over a small alphabet x indices {0,1,n-1,n,n+1,2^31,2^32,SIZE_MAX}; fill sizes across the small-string limit; boolean texts"
+
+    def models(self, tier):
+        return []
+
+    def jobs(self, tier, seed):
+        e = vlib.build("exec_strops")
+        q = tier == "quick"
+        return sharded("x01", e, ["--gen", "x01", "--seed", str(seed)] + (self.args_quick if q else self.args_thorough), self.shards_quick if q else self.shards_thorough)
+
+
+EXTRA = {"X01": X01}
 CHECKS = {"C06": C06, "C07": C07, "C08": C08, "C09": C09}
